@@ -382,7 +382,9 @@ func (i *Interpreter) Exec(ctx context.Context, bs match.Bindings, props core.St
 		result = vv
 	case nil:
 	default:
-		return nil, fmt.Errorf("%#v (%T) isn't Bindings", x, x)
+		// Don't print the value itself: It came straight from
+		// the code, so it could contain itself.
+		return nil, fmt.Errorf("a %T isn't Bindings", x)
 	}
 	exe.Bs = result
 
